@@ -189,6 +189,8 @@ pub enum Placement {
     Single(usize, Fault),
     /// (from step, errno): EMFILE on every descriptor-creating call, any other errno on every call that can report it
     Sticky(usize, i32),
+    /// (from step, errno, system call number): the same, for calls of that one kind only
+    StickyNr(usize, i32, i64),
     Eagain(usize, usize),
     /// sparse random faults: (seed, per-mille per call)
     Random(u64, u64),
@@ -202,6 +204,7 @@ impl Placement {
             Placement::None => json!(["none"]),
             Placement::Single(s, f) => json!(["single", s, Dec { step: *s, fault: Some(f.clone()), ..Default::default() }.to_json()["fault"]]),
             Placement::Sticky(s, e) => json!(["sticky", s, sys::errname(*e)]),
+            Placement::StickyNr(s, e, nr) => json!(["sticky_nr", s, sys::errname(*e), nr]),
             Placement::Eagain(i, k) => json!(["eagain", i, k]),
             Placement::Random(s, p) => json!(["random", s, p]),
             Placement::FdCap(n) => json!(["fdcap", n]),
@@ -214,6 +217,7 @@ impl Placement {
                 Placement::Single(d.step, d.fault.unwrap_or(Fault::Errno(libc::EIO)))
             }
             Some("sticky") => Placement::Sticky(v[1].as_u64().unwrap_or(0) as usize, v[2].as_str().and_then(sys::errnum).unwrap_or(libc::EMFILE)),
+            Some("sticky_nr") => Placement::StickyNr(v[1].as_u64().unwrap_or(0) as usize, v[2].as_str().and_then(sys::errnum).unwrap_or(libc::EIO), v[3].as_i64().unwrap_or(0)),
             Some("eagain") => Placement::Eagain(v[1].as_u64().unwrap_or(0) as usize, v[2].as_u64().unwrap_or(1) as usize),
             Some("random") => Placement::Random(v[1].as_u64().unwrap_or(0), v[2].as_u64().unwrap_or(20)),
             Some("fdcap") => Placement::FdCap(v[1].as_u64().unwrap_or(0) as usize),
@@ -226,6 +230,10 @@ impl Placement {
             Placement::None => {}
             Placement::Single(s, f) => p.script.push(Dec { step: *s, fault: Some(f.clone()), ..Default::default() }),
             Placement::Sticky(s, e) => p.sticky = Some((*s, *e)),
+            Placement::StickyNr(s, e, nr) => {
+                p.sticky = Some((*s, *e));
+                p.sticky_nr = Some(*nr);
+            }
             Placement::Eagain(i, k) => p.eagain = Some((*i, *k)),
             Placement::FdCap(n) => p.fd_cap = Some(*n),
             Placement::Random(seed, pm) => {
@@ -290,6 +298,7 @@ pub fn placements(out: &RunOut, target_op: usize) -> Vec<Placement> {
         for e in [libc::ENOMEM, libc::EIO] {
             if fault_catalogue(ev.nr).iter().any(|f| matches!(f, Fault::Errno(x) if *x == e)) {
                 v.push(Placement::Sticky(ev.step, e));
+                v.push(Placement::StickyNr(ev.step, e, ev.nr));
             }
         }
         if ev.nr == libc::SYS_openat2 && !ev.config_refusal {
@@ -615,7 +624,7 @@ pub fn finalise(tier: &str, seed: u64, res: coord::CheckResult, placements_total
         tier,
         seed,
         "fault_enumeration",
-        "for every scenario (operation x world x facade) in a K and an E universe, warm and (for a subset) first-use: record the fault-free trace, then one run per (index of a trapped call inside the operation, errno of that call's fault catalogue), one run per descriptor-creating call with EMFILE sticky from there on, one run per call with ENOMEM / EIO sticky from there on (every later call that can report that errno fails with it), and k in {1,2,15,16,17,20} consecutive EAGAINs on every openat2; non-trivial = the placed fault actually fired; distinct = distinct (universe, scenario, placement)",
+        "for every scenario (operation x world x facade) in a K and an E universe, warm and (for a subset) first-use: record the fault-free trace, then one run per (index of a trapped call inside the operation, errno of that call's fault catalogue), one run per descriptor-creating call with EMFILE sticky from there on, two runs per call with ENOMEM / EIO sticky from there on (every later call that can report that errno fails with it / every later call of the same system call does), and k in {1,2,15,16,17,20} consecutive EAGAINs on every openat2; non-trivial = the placed fault actually fired; distinct = distinct (universe, scenario, placement)",
         res,
         extra,
         vec![
